@@ -242,6 +242,8 @@ def _run_sc(arg):
 
 
 def canon(x):
+    if " x=" in x:
+        x = x[:x.index(" x=")]
     if x[:2] in ("D ", "S ") and x[2:] != "-":
         return x[:2] + ",".join(sorted(x[2:].split(","), key=int))
     if x in ("N", "U"):
@@ -265,6 +267,67 @@ def corpus_scenarios():
     return out
 
 
+CLASS_TO_FINDING = {"ek": "F5", "cap": "F5", "odd": "C07-N1", "bs": "C07-N2", "f2": "F2"}
+
+
+def class_known(rep, known, classes, sample):
+    """model = code != specification: acceptable only inside a known class.  Returns True if accounted for."""
+    hit = False
+    for c in classes.split(","):
+        fid = CLASS_TO_FINDING.get(c)
+        if fid and fid in known:
+            rep.known(known[fid], sample)
+            hit = True
+    return hit
+
+
+def split_ms(line):
+    """'model | spec' -> (model, spec)"""
+    if " | " in line:
+        a, b = line.split(" | ", 1)
+        return a, b
+    return line, ""
+
+
+def stateless_verdict(rep, known, cmd, l, i, m, s):
+    """i = implementation, m = model, s = spec oracle fields"""
+    sf = s.split()
+    if cmd == "uint":
+        if i != m:
+            rep.violation("uint: _dbus_string_parse_uint `%s` vs model `%s` on %s" % (i, m, l), {"input": l, "impl": i, "model": m,
+                          "names": "correspondence match_h/uint vs Match.Rule.parse_uint"}, found_input=False)
+        return
+    spec_v = sf[0]
+    classes = sf[-1]
+    if i != m:
+        impl_v = i[:1]
+        # does the implementation itself break the specification on this input?
+        spec_ok = (impl_v == spec_v) if cmd != "parse" else (impl_v == spec_v and (impl_v != "O" or classes == "-"))
+        if not spec_ok and not (classes != "-"):
+            rep.violation("%s: implementation `%s`, specification `%s` (model `%s`) on %s" % (cmd, i[:160], spec_v, m[:160], l[:300]),
+                          {"input": l, "impl": i, "model": m, "spec": s})
+        else:
+            rep.violation("%s: implementation `%s` vs model `%s` (specification oracle: `%s`) on %s" % (cmd, i[:160], m[:160], s, l[:300]),
+                          {"input": l, "impl": i, "model": m, "spec": s, "names": "correspondence match_h/%s vs Match model" % cmd}, found_input=False)
+        return
+    # implementation = model; compare with the specification
+    if cmd == "parse":
+        agree = sf[1] == "1"
+    else:
+        agree = m == spec_v
+    if agree:
+        return
+    if cmd == "equal" and m == "1" and spec_v == "0" and "F8" in known:
+        a, b = (bytes.fromhex(x if x != "-" else "") for x in l.split()[1:3])
+        if b"path_namespace" in a and b"path_namespace" in b:
+            rep.known(known["F8"], l)
+            return
+    if classes != "-" and class_known(rep, known, classes, l):
+        return
+    rep.violation("%s: code and model say `%s`, the specification says `%s` on %s" % (cmd, m[:160], s, l[:300]),
+                  {"input": l, "impl": i, "model": m, "spec": s})
+
+
 def run(ctx):
     rep, tier, info = ctx["rep"], ctx["tier"], ctx["info"]
     rnd = random.Random(ctx["seed"])
@@ -273,40 +336,48 @@ def run(ctx):
     dist = {}
     nontrivial = set()
     samples = []
+    replay_lines, replay_scs = [], []
+    if ctx.get("replay"):
+        rp = json.load(open(ctx["replay"]))
+        rp = rp.get("replay", rp)
+        if "scenario" in rp:
+            replay_scs.append(rp["scenario"])
+        if "input" in rp:
+            replay_lines.append(rp["input"])
 
     # ---------------- leg (a): stateless ----------------
-    lines = []
-    for t in gen_parse_cases(tier, rnd):
-        lines.append("parse " + hx(t))
-    for t, m in gen_match_cases(tier, rnd):
-        lines.append("match %s %s" % (hx(t), msg_line(m)))
-    for a, b in gen_equal_cases(tier, rnd):
-        lines.append("equal %s %s" % (hx(a), hx(b)))
-    for s in gen_uint_cases(tier, rnd):
-        lines.append("uint " + hx(s))
+    lines = list(replay_lines)
+    if not ctx.get("replay"):
+        for t in gen_parse_cases(tier, rnd):
+            lines.append("parse " + hx(t))
+        for t, m in gen_match_cases(tier, rnd):
+            lines.append("match %s %s" % (hx(t), msg_line(m)))
+        for a, b in gen_equal_cases(tier, rnd):
+            lines.append("equal %s %s" % (hx(a), hx(b)))
+        for s in gen_uint_cases(tier, rnd):
+            lines.append("uint " + hx(s))
     lines = list(dict.fromkeys(lines))
-    model, mcr = vlib.run_lines(model_exe, lines)
+    both, mcr = vlib.run_lines(model_exe, lines)
     for line, err in mcr:
         rep.violation("extracted model failed on `%s`: %s" % (line[:200], err[-300:]), {"input": line, "names": "model driver"}, found_input=False)
-    safe = [(l, m) for l, m in zip(lines, model) if m != "F"]
-    faulty = [(l, m) for l, m in zip(lines, model) if m == "F"]
-    impl, icr = vlib.run_lines(harness, [l for l, _ in safe])
+    model = [split_ms(x) for x in both]
+    safe = [(l, m, s) for l, (m, s) in zip(lines, model) if m != "F"]
+    faulty = [(l, m, s) for l, (m, s) in zip(lines, model) if m == "F"]
+    impl, icr = vlib.run_lines(harness, [l for l, _, _ in safe])
     for line, err in icr:
         rep.violation("implementation crashed / sanitizer report on input `%s` (model predicts no fault): %s" % (line[:300], err[-900:]),
                       {"input": line, "stderr": err})
-    for (l, m), i in zip(safe, impl):
+    for (l, m, s), i in zip(safe, impl):
         cmd = l.split()[0]
         dist[cmd] = dist.get(cmd, 0) + 1
         if i == "!CRASH" or m.startswith("?") or m == "!CRASH":
             continue
         if m not in ("I", "L", "X", "-", "0"):
             nontrivial.add(l)
-        if i != m:
-            rep.violation("%s: implementation `%s` vs model `%s` on %s" % (cmd, i[:200], m[:200], l[:300]),
-                          {"input": l, "impl": i, "model": m, "names": "correspondence match_h/%s vs Match model" % cmd}, found_input=False)
+        stateless_verdict(rep, known, cmd, l, i, m, s)
     # the fault class: each case in its own process, the sanitizer must report the under-read in match_rule_matches
     fault_checked = 0
-    for l, m in faulty[:25 if tier == "quick" else 200]:
+    for l, m, s in faulty[:25 if tier == "quick" else 200]:
         res, cr = vlib.run_one(harness, l)
         fault_checked += 1
         dist["match(fault)"] = dist.get("match(fault)", 0) + 1
@@ -319,12 +390,14 @@ def run(ctx):
         else:
             rep.violation("model predicts an out-of-bounds read, implementation answered `%s` on %s" % (res, l),
                           {"input": l, "impl": res, "names": "correspondence match_h/match vs Match.Matcher.arg_matches (Fault)"}, found_input=False)
-    samples += [{"line": l, "model": m, "impl": i} for (l, m), i in list(zip(safe, impl))[::max(1, len(safe) // 8)]][:8]
+    samples += [{"line": l, "model": m, "spec": s, "impl": i} for (l, m, s), i in list(zip(safe, impl))[::max(1, len(safe) // 8)]][:8]
 
     # ---------------- leg (b): end to end ----------------
-    scs = corpus_scenarios()
-    for _ in range(250 if tier == "quick" else 6000):
-        scs.append(G.gen_scenario(rnd))
+    scs = list(replay_scs)
+    if not ctx.get("replay"):
+        scs += corpus_scenarios()
+        for _ in range(1000 if tier == "quick" else 12000):
+            scs.append(G.gen_scenario(rnd))
     exp = [E.expand(s) for s in scs]
     mlines, spans = [], []
     for s in exp:
@@ -338,39 +411,90 @@ def run(ctx):
     with multiprocessing.Pool(min(vlib.NPROC, 12)) as pool:
         results = pool.map(_run_sc, [(info["daemon"], s) for s in exp], chunksize=4)
     n_events = 0
+    spec_compared = 0
     for sc, s, (start, cnt), (obs, rc, err) in zip(scs, exp, spans, results):
+        sc = {k: v for k, v in sc.items() if not k.startswith("_")}
         ml = mlines[start + 1:start + cnt]
         mo = mres[start + 1:start + cnt]
+        spec_live = True          # specification world still in step with the model world
+        gone = set()              # unique names of connections that have disconnected
+        broke = False
         for j, o in enumerate(obs):
             n_events += 1
-            m = canon(mo[j])
+            m_raw, s_raw = split_ms(mo[j])
+            m = canon(m_raw)
             o = canon(o)
             op = ml[j].split()[0]
             dist["e2e " + op] = dist.get("e2e " + op, 0) + 1
             if o not in ("D -", "S -", "R invalid"):
                 nontrivial.add((start, j))
-            replay = {"scenario": sc, "event_index": j, "event": ml[j], "impl": o, "model": m, "daemon_exit": rc, "stderr": err[-1500:]}
+            replay = {"scenario": sc, "event_index": j, "event": ml[j], "impl": o, "model": m, "spec": s_raw, "daemon_exit": rc, "stderr": err[-1500:]}
             if o.startswith("?"):
                 rep.violation("end-to-end glue failed at `%s`: %s" % (ml[j][:200], o), dict(replay, names="harness/py/match_e2e.py"), found_input=False)
+                broke = True
                 break
             if o == "F" and m == "F":
                 if "AddressSanitizer" in err and "match_rule_matches" in err and "F6" in known:
                     rep.known(known["F6"], ml[j])
                 else:
                     rep.violation("dbus-daemon died handling `%s` (exit %s)" % (ml[j][:200], rc), replay)
+                broke = True
                 break
             if o == "F":
                 rep.violation("dbus-daemon died handling `%s` (exit %s): %s" % (ml[j][:200], rc, err[-600:]), replay)
+                broke = True
                 break
             if m == "F":
                 rep.violation("model predicts an out-of-bounds read at `%s`, daemon answered `%s`" % (ml[j][:200], o),
                               dict(replay, names="correspondence daemon vs Match.Bus.step (Fault)"), found_input=False)
+                broke = True
                 break
+            # --- specification oracle on this event
+            sp_fields = s_raw.split(" ")
+            classes = sp_fields[-1] if op in ("add", "rm") else "-"
+            sp = canon(" ".join(sp_fields[:-1]) if op in ("add", "rm") else s_raw)
             if o != m:
-                rep.violation("history event `%s`: daemon `%s` vs model `%s`" % (ml[j][:200], o, m),
-                              dict(replay, names="correspondence daemon vs Match.Bus.step"), found_input=False)
+                if spec_live and o == sp:
+                    rep.violation("history event `%s`: daemon `%s` (as the specification says) vs model `%s`" % (ml[j][:200], o, m),
+                                  dict(replay, names="correspondence daemon vs Match.Bus.step"), found_input=False)
+                elif spec_live:
+                    rep.violation("history event `%s`: daemon `%s`, specification `%s` (model `%s`)" % (ml[j][:200], o, sp, m), replay)
+                else:
+                    rep.violation("history event `%s`: daemon `%s` vs model `%s`" % (ml[j][:200], o, m),
+                                  dict(replay, names="correspondence daemon vs Match.Bus.step"), found_input=False)
+                broke = True
                 break
-        else:
+            if op == "disc":
+                gone.add(":1.%d" % s["plan"][int(ml[j].split()[1])])
+                if " x=" in m_raw and not m_raw.endswith(" x=0") and spec_live:
+                    # the matchmaker also dropped other connections' rules naming the leaving unique name
+                    if "C07-N3" in known:
+                        rep.known(known["C07-N3"], ml[j])
+                    else:
+                        rep.violation("disconnect `%s` removed rules of other connections (%s)" % (ml[j], m_raw), replay)
+                    spec_live = False
+            if spec_live:
+                spec_compared += 1
+                if op in ("add", "rm") and classes != "-" and (m != sp or m == "R ok"):
+                    # the text is in a class where the code reads something else than the specification
+                    # (even when both accept): from here on the two worlds hold different rules
+                    if not class_known(rep, known, classes, ml[j]):
+                        rep.violation("history event `%s`: daemon and model `%s`, the specification says `%s` (class %s)" % (ml[j][:200], m, sp, classes), replay)
+                    spec_live = False
+                elif m != sp:
+                    text = bytes.fromhex(ml[j].split()[2].replace("-", "")) if op in ("add", "rm") else b""
+                    if op == "rm" and m == "R oknotfound" and sp == "R notfound" and "F9" in known:
+                        rep.known(known["F9"], ml[j])                 # same state on both sides: keep comparing
+                    elif op == "rm" and m == "R ok" and sp == "R notfound" and b"path_namespace" in text and "F8" in known:
+                        rep.known(known["F8"], ml[j])
+                        spec_live = False
+                    elif op == "rm" and m == "R oknotfound" and sp == "R ok" and any(g.encode() in text for g in gone) and "C07-N3" in known:
+                        rep.known(known["C07-N3"], ml[j])
+                        spec_live = False
+                    else:
+                        rep.violation("history event `%s`: daemon and model `%s`, the specification says `%s`" % (ml[j][:200], m, sp), replay)
+                        spec_live = False
+        if not broke and len(obs) == cnt - 1:
             if rc not in (0, -15) or "Sanitizer" in err:
                 rep.violation("dbus-daemon exit status %s / sanitizer output after a history: %s" % (rc, err[-600:]), {"scenario": sc, "daemon_exit": rc, "stderr": err[-1500:]})
     samples += [{"scenario_events": exp[k]["events"][:6], "observations": results[k][0][:8]} for k in range(0, len(exp), max(1, len(exp) // 4))][:4]
@@ -384,8 +508,11 @@ def run(ctx):
                 "delivery or signal observed; distinct = distinct input lines / (history, event)" % (4 if tier == "quick" else 6, len(exp)),
         "samples": samples, "input_distribution": dist, "traces_validated_against_impl": len(lines) + n_events,
         "disagreements_checked": len(rep.violations), "exhaustive": False,
-        "fault_cases_replayed": fault_checked,
+        "fault_cases_replayed": fault_checked, "history_events_compared_with_spec_oracle": spec_compared,
+        "explanation": "theorems: see notes/C07.md; correspondence: implementation = model on every generated case (in-process and end to end); "
+                       "the specification oracle (extracted Spec.MatchSpec) is evaluated on every case, differences must fall into a known class",
     })
     rep.assumptions = ["bus runs with an allow-all policy and uid 0 (callers are privileged: eavesdrop='true' is permitted)",
                        "strtoul as in glibc 2.36 (no 0b prefix), C locale; unsigned long is 64 bit",
-                       "the per-pool hash tables of BusMatchmaker are modelled as filtered views of one insertion-ordered list"]
+                       "the per-pool hash tables of BusMatchmaker are modelled as filtered views of one insertion-ordered list",
+                       "rule texts contain no NUL byte (they arrive as D-Bus STRING values)"]
